@@ -636,7 +636,7 @@ fn dims(thorough: bool) -> Dims {
       u: vec!["none", "direct", "all", "any", "not", "inside", "has", "chain2", "chain3", "utilvar", "ofrule"],
       k: vec!["none", "regex", "two", "bindc", "matches"],
       t: vec!["none", "substring", "replace", "convert", "chain2", "chain3", "chain2r", "chain3r", "fromc", "indep"],
-      w: vec!["none", "one", "two", "nested"],
+      w: vec!["none", "one", "two", "nested", "outer"],
       fc: vec!["captured", "transformed", "both"],
       ff: vec!["string", "object", "object-expand", "object-expand-matches", "object-expand-both"],
     }
@@ -646,7 +646,7 @@ fn dims(thorough: bool) -> Dims {
       u: vec!["none", "direct", "all", "any", "not", "inside", "has", "chain2", "chain3", "utilvar", "ofrule"],
       k: vec!["none", "two", "bindc", "matches"],
       t: vec!["none", "chain2", "chain3", "chain2r", "chain3r", "fromc"],
-      w: vec!["none", "one", "two", "nested"],
+      w: vec!["none", "one", "two", "nested", "outer"],
       fc: vec!["captured", "both"],
       ff: vec!["string", "object", "object-expand-matches", "object-expand-both"],
     }
@@ -823,6 +823,13 @@ fn build_base(r: &str, u: &str, k: &str, t: &str, w: &str, fc: &str, ff: &str) -
       transform.insert("R1".into(), json!({"rewrite": {"rewriters": ["rw1", "rw2"], "source": primary}}));
       tvars.push("R1");
     }
+    // the rewriter's fix uses a variable of the ENCLOSING rule that only a constraint binds
+    "outer" if k == "bindc" => {
+      rewriters.push(json!({"id": "rw-outer", "rule": {"pattern": "$X", "kind": "identifier"}, "fix": "<$X|$C>"}));
+      transform.insert("R1".into(), json!({"rewrite": {"rewriters": ["rw-outer"], "source": primary}}));
+      tvars.push("R1");
+    }
+    "outer" => return None,
     _ => {
       rewriters.push(json!({"id": "rw1", "rule": {"pattern": "$X", "kind": "identifier"},
         "transform": {"XR": {"rewrite": {"rewriters": ["rw2"], "source": "$X"}}}, "fix": "[$XR]"}));
@@ -1275,6 +1282,31 @@ fn ref_transformed(doc: &Value, m: &Value) -> BTreeMap<String, (String, bool)> {
           _ => None,
         },
         ("convert", Some(v)) if body["toCase"] == "upperCase" => Some(v.to_uppercase()),
+        // the one rewriter whose output the reference can spell: every identifier of the source
+        // text becomes `<identifier|value of $C>` ($C comes from the enclosing rule's constraint)
+        ("rewrite", Some(v)) if body["rewriters"] == json!(["rw-outer"]) && body.get("joinBy").is_none() => {
+          m["single"].get("C").and_then(|x| x.as_str()).map(|c| {
+            let cs: Vec<char> = v.chars().collect();
+            let mut out = String::new();
+            let mut i = 0;
+            while i < cs.len() {
+              let prev_word = i > 0 && (cs[i - 1].is_alphanumeric() || cs[i - 1] == '_');
+              if (cs[i].is_alphabetic() || cs[i] == '_') && !prev_word {
+                let mut j = i;
+                while j < cs.len() && (cs[j].is_alphanumeric() || cs[j] == '_') {
+                  j += 1;
+                }
+                let id: String = cs[i..j].iter().collect();
+                out.push_str(&format!("<{id}|{c}>"));
+                i = j;
+              } else {
+                out.push(cs[i]);
+                i += 1;
+              }
+            }
+            out
+          })
+        }
         _ => None,
       };
       match out {
